@@ -407,7 +407,7 @@ def rules(ctx: Ctx) -> None:
     common.import_rules(ctx, "C10", {"R10.11": "R05.5"}, key_filter=lambda o: f":{ev_owner}:" in o.key)
 
     # R05.6 (= R03.2, accumulator): combining the statements never edits a statement's own result
-    common.import_rules(ctx, "C03", {"R03.2": "R05.6"}, key_filter=lambda o: o.key.startswith("fold:accumulator"))
+    common.import_rules(ctx, "C03", {"R03.2": "R05.6"}, key_filter=lambda o: o.key.startswith(("fold:accumulator", "fold:compose-first")))
 
 
 def _bound_from_analyze(prog: Prog, fn: Fn, e: ast.AST) -> bool:
